@@ -100,6 +100,10 @@ func (x *exec) callFunction(st *State, cs *callSite, fn *ssa.Function, bind []Va
 	x.ctx.Callees[key] = true
 	rt := resultType(fn.Signature)
 	ct := x.e.Specs.Contracts[key]
+	if v := x.e.Specs.Views[x.callerPkg(st)+"|"+key]; v != nil {
+		ct = v
+		x.ctx.note("trusted abstract view of " + key + " used at a call site in " + x.callerPkg(st))
+	}
 	if ct != nil {
 		ct.Used = true
 	}
@@ -450,6 +454,20 @@ func paramTypes(fn *ssa.Function, sig *types.Signature, nargs int) []types.Type 
 	return ts
 }
 
+func (x *exec) callerPkg(st *State) string {
+	fn := st.top().fn
+	for fn.Parent() != nil {
+		fn = fn.Parent()
+	}
+	if fn.Pkg != nil {
+		return fn.Pkg.Pkg.Path()
+	}
+	if o := fn.Object(); o != nil && o.Pkg() != nil {
+		return o.Pkg().Path()
+	}
+	return ""
+}
+
 func (x *exec) specPkg(ct *Contract) *types.Package {
 	return x.e.TPkg[ct.Pkg]
 }
@@ -589,6 +607,17 @@ func (x *exec) modLocs(se *specEnv, cl *Clause) []modLoc {
 	e := cl.Expr
 	// contents(m): all entries of a map / all elements of a slice's backing array
 	if call, ok := e.(*ast.CallExpr); ok {
+		if id, ok := call.Fun.(*ast.Ident); ok && id.Name == "elems" {
+			// elems(T): every element of every []T backing array
+			tv := se.eval(call.Args[0])
+			if tv.T == nil {
+				se.fail("elems() needs a type")
+			}
+			for _, l := range leavesOf(tv.T) {
+				out = append(out, modLoc{key: elemKey(tv.T, l.Path), sort: ArrSort(SInt, ArrSort(SInt, l.Sort))})
+			}
+			return out
+		}
 		if id, ok := call.Fun.(*ast.Ident); ok && (id.Name == "contents" || id.Name == "all") {
 			sv := se.eval(call.Args[0])
 			switch id.Name {
@@ -638,8 +667,26 @@ func (x *exec) modLocs(se *specEnv, cl *Clause) []modLoc {
 	}
 	// Type.field : every object's field
 	if sel, ok := e.(*ast.SelectorExpr); ok {
+		// pkg.Type.field
+		if inner, ok := sel.X.(*ast.SelectorExpr); ok {
+			if pid, ok := inner.X.(*ast.Ident); ok {
+				if _, isVar := se.vars[pid.Name]; !isVar {
+					if t := se.resolveType(pid.Name + "." + inner.Sel.Name); t != nil {
+						if out := x.typeFieldLocs(se, t, inner.Sel.Name, sel.Sel.Name); out != nil {
+							return out
+						}
+					}
+				}
+			}
+		}
 		if id, ok := sel.X.(*ast.Ident); ok {
 			if _, isVar := se.vars[id.Name]; !isVar && se.pkg != nil {
+				if _, isType := se.pkg.Scope().Lookup(id.Name).(*types.TypeName); !isType {
+					if gf, ok := x.e.Specs.GhostFields[id.Name+"."+sel.Sel.Name]; ok {
+						gs, _ := ghostSort(gf.Type)
+						return []modLoc{{key: "G." + gf.Owner + "." + gf.Name, sort: ArrSort(SInt, gs)}}
+					}
+				}
 				if tn, ok := se.pkg.Scope().Lookup(id.Name).(*types.TypeName); ok {
 					if gf, ok := x.e.Specs.GhostFields[id.Name+"."+sel.Sel.Name]; ok {
 						gs, _ := ghostSort(gf.Type)
@@ -693,6 +740,27 @@ func (x *exec) modLocs(se *specEnv, cl *Clause) []modLoc {
 			out = append(out, modLoc{key: elemKey(p.Root, joinLeaf(prefix, l.Path)), sort: ArrSort(SInt, ArrSort(SInt, l.Sort)), obj: &o})
 		} else {
 			out = append(out, modLoc{key: heapKey(p.Root, joinLeaf(prefix, l.Path)), sort: ArrSort(SInt, l.Sort), obj: &o})
+		}
+	}
+	return out
+}
+
+// typeFieldLocs: every object's field (or ghost field) of a named struct type.
+func (x *exec) typeFieldLocs(se *specEnv, t types.Type, tname, fname string) []modLoc {
+	if gf, ok := x.e.Specs.GhostFields[tname+"."+fname]; ok {
+		gs, _ := ghostSort(gf.Type)
+		return []modLoc{{key: "G." + gf.Owner + "." + gf.Name, sort: ArrSort(SInt, gs)}}
+	}
+	st, ok := t.Underlying().(*types.Struct)
+	if !ok {
+		return nil
+	}
+	var out []modLoc
+	for i := 0; i < st.NumFields(); i++ {
+		if st.Field(i).Name() == fname {
+			for _, l := range leavesOf(st.Field(i).Type()) {
+				out = append(out, modLoc{key: heapKey(t, joinLeaf(fname, l.Path)), sort: ArrSort(SInt, l.Sort)})
+			}
 		}
 	}
 	return out
